@@ -42,7 +42,11 @@ For the pinned commit's member (`recheck = false`): REFUTED (`c07_one_feature_pe
 overlap (`c07_one_feature_per_type_role_partial`).
 Domain assumption made explicit (`Op.ok`, `validFrom`): an entity is added only while it is not part of the device
 (the API does not reject a duplicate address); needed only for "no duplicate keys", not for `c07_refines`' map equality.
-Not modelled: partial-operation flags; reads overlapping feature or function additions (C17's subject).
+The announced CONTENTS are modelled as well: device description and destination list (`c07_destination_list`,
+`c07_destination_list_function_announced`), supported functions with read / write / partial flags as
+`Operations.Information` derives them (`c07_supported_functions`; the partial-write capability of a function on a
+feature type comes from the regenerated factory table `Spine.Generated.Functions`, supplied by the driver).
+Not modelled: reads overlapping feature or function additions (C17's subject).
 -/
 namespace Spine.Props.C07
 open Spine Spine.LTree
@@ -54,7 +58,7 @@ open Spine Spine.LTree
     exactly its features (number, type, role, description, functions with read/write flags are the fields of `Feat`);
     reading changes nothing. -/
 theorem c07_reply_faithful (s : St) (p : Nat) :
-    step s (.read p) = (s, [.reply p (replyEnts s) (replyFeats s)]) ∧
+    step s (.read p) = (s, [.reply p s.dev (replyEnts s) (replyFeats s)]) ∧
     (∀ k et, (k, et) ∈ replyEnts s ↔ k ∈ s.attached ∧ et = (s.pool k).etype) ∧
     (∀ k f, (k, f) ∈ replyFeats s ↔ k ∈ s.attached ∧ f ∈ (s.pool k).feats) :=
   ⟨rfl, mem_replyEnts s, mem_replyFeats s⟩
@@ -63,25 +67,25 @@ theorem c07_reply_faithful (s : St) (p : Nat) :
     is rendering it when AddEntity / RemoveEntity happens): the reply is the faithful reply of one moment — the state
     before the operation — never a mixture; the operation's notifications are sent as usual. -/
 theorem c07_reply_faithful_held (s : St) (p : Nat) (o : Op) :
-    heldRead s p o = ((step s o).1, .reply p (replyEnts s) (replyFeats s) :: (step s o).2) ∧
+    heldRead s p o = ((step s o).1, .reply p s.dev (replyEnts s) (replyFeats s) :: (step s o).2) ∧
     (∀ k et, (k, et) ∈ replyEnts s ↔ k ∈ s.attached ∧ et = (s.pool k).etype) ∧
     (∀ k f, (k, f) ∈ replyFeats s ↔ k ∈ s.attached ∧ f ∈ (s.pool k).feats) :=
   ⟨rfl, mem_replyEnts s, mem_replyFeats s⟩
 
 /-- a history used for the non-vacuity examples: two entities, features, functions, a subscriber, removal -/
 def exOps : List Op :=
-  [.sub 0, .renew 1 1, .feat 1 0 1, .addFn 1 1 0 true true, .addFn 1 1 0 false false, .feat 1 0 0, .addFn 1 2 3 true false,
+  [.sub 0, .renew 1 1, .feat 1 0 1, .addFn 1 1 0 true true true, .addFn 1 1 0 false false true, .feat 1 0 0, .addFn 1 2 3 true false false,
    .renew 2 2, .feat 2 4 2, .nextId 2, .feat 2 1 1, .attach 1, .attach 2, .setDescr 2 1 1001, .detach 1, .attach 1]
 
-example : validFrom init exOps ∧ replyEnts (run exOps) = [(0, 0), (2, 2), (1, 1)] ∧
-    (replyFeats (run exOps)).drop 2 =
-      [(2, ⟨1, 4, 2, 1001, []⟩), (2, ⟨3, 1, 1, 5, []⟩), (1, ⟨1, 0, 1, 2, [⟨0, true, true⟩]⟩), (1, ⟨2, 0, 0, 1, []⟩)] := by
+example : validFrom (init {}) exOps ∧ replyEnts (run {} exOps) = [(0, 0), (2, 2), (1, 1)] ∧
+    (replyFeats (run {} exOps)).drop 2 =
+      [(2, ⟨1, 4, 2, 1001, []⟩), (2, ⟨3, 1, 1, 5, []⟩), (1, ⟨1, 0, 1, 2, [⟨0, true, true, true⟩]⟩), (1, ⟨2, 0, 0, 1, []⟩)] := by
   refine ⟨?_, by decide, by decide⟩
   simp only [exOps, validFrom, Op.ok, and_true, true_and]
   decide
 
-example : (heldRead (run exOps) 1 (.detach 2)).2 =
-    [.reply 1 [(0, 0), (2, 2), (1, 1)] (replyFeats (run exOps)), .notify 0 false 2 2 []] := by decide
+example : (heldRead (run {} exOps) 1 (.detach 2)).2 =
+    [.reply 1 {} [(0, 0), (2, 2), (1, 1)] (replyFeats (run {} exOps)), .notify 0 false 2 2 []] := by decide
 
 /-! ## Clause 1 as one statement over histories: the reply equals the SPEC of the history -/
 
@@ -93,36 +97,36 @@ example : (heldRead (run exOps) 1 (.detach 2)).2 =
     flags of its first addition — nothing more, nothing less. For histories inside the domain (`validFrom`) the
     reply's entity addresses, feature addresses and the function names of each feature are free of duplicates, so the
     reply lists are determined by these maps up to order. -/
-theorem c07_refines (ops : List Op) :
-    LTree.abs (run ops) = specOf ops ∧
-    (∀ k, replyEntMap (run ops) k = if (specOf ops).att k then some ((specOf ops).etype k) else none) ∧
-    (∀ k id, replyFeatMap (run ops) k id = if (specOf ops).att k then (specOf ops).feat k id else none) ∧
-    (validFrom init ops →
-      ((replyEnts (run ops)).map (·.1)).Nodup ∧
-      ((replyFeats (run ops)).map fun p => (p.1, p.2.id)).Nodup ∧
-      ∀ k f, (k, f) ∈ replyFeats (run ops) → (f.fns.map (·.fn)).Nodup) := by
-  refine ⟨abs_run ops, ?_, ?_, ?_⟩
+theorem c07_refines (cfg : DevCfg) (ops : List Op) :
+    LTree.abs (run cfg ops) = specOf cfg ops ∧
+    (∀ k, replyEntMap (run cfg ops) k = if (specOf cfg ops).att k then some ((specOf cfg ops).etype k) else none) ∧
+    (∀ k id, replyFeatMap (run cfg ops) k id = if (specOf cfg ops).att k then (specOf cfg ops).feat k id else none) ∧
+    (validFrom (init cfg) ops →
+      ((replyEnts (run cfg ops)).map (·.1)).Nodup ∧
+      ((replyFeats (run cfg ops)).map fun p => (p.1, p.2.id)).Nodup ∧
+      ∀ k f, (k, f) ∈ replyFeats (run cfg ops) → (f.fns.map (·.fn)).Nodup) := by
+  refine ⟨abs_run cfg ops, ?_, ?_, ?_⟩
   · intro k; rw [replyEntMap_eq, abs_run]
   · intro k id; rw [replyFeatMap_eq, abs_run]
   · intro hv
     refine ⟨?_, ?_, ?_⟩
-    · have : (replyEnts (run ops)).map (·.1) = (run ops).attached := by
+    · have : (replyEnts (run cfg ops)).map (·.1) = (run cfg ops).attached := by
         simp [replyEnts, List.map_map, Function.comp_def]
-      rw [this]; exact attached_run ops hv
+      rw [this]; exact attached_run cfg ops hv
     · rw [replyFeats_addrs]
-      exact addrs_nodup _ (fun k => ((inv_run ops).1 k).1.1) _ (attached_run ops hv)
+      exact addrs_nodup _ (fun k => ((inv_run cfg ops).1 k).1.1) _ (attached_run cfg ops hv)
     · intro k f hm
-      exact ((inv_run ops).1 k).2.2 f ((mem_replyFeats _ k f).mp hm).2
+      exact ((inv_run cfg ops).1 k).2.2 f ((mem_replyFeats _ k f).mp hm).2
 
 /-- non-vacuity: the SPEC of the example history at some points — entity 1 is part of the device again, its feature
     1 is LoadControl(0)/server with function 0 readable and writable (the second add with other flags did not count),
     its client feature 2 took no function, entity 2's feature 1 carries the custom description, number 2 of entity 2
     was consumed by NextFeatureId and is no feature -/
-example : validFrom init exOps ∧ (specOf exOps).att 1 = true ∧ (specOf exOps).att 3 = false ∧
-    ((specOf exOps).feat 1 1).map (fun d => (d.typ, d.role, d.descr, d.ops 0, d.ops 3)) = some (0, 1, 2, some (true, true), none) ∧
-    ((specOf exOps).feat 1 2).map (fun d => (d.typ, d.role, d.ops 3)) = some (0, 0, none) ∧
-    ((specOf exOps).feat 2 1).map (·.descr) = some 1001 ∧ ((specOf exOps).feat 2 2).isNone = true ∧
-    ((specOf exOps).feat 0 0).map (fun d => (d.typ, d.ops 100, d.ops 103)) = some (nmType, some (true, false), some (false, false)) := by
+example : validFrom (init {}) exOps ∧ (specOf {} exOps).att 1 = true ∧ (specOf {} exOps).att 3 = false ∧
+    ((specOf {} exOps).feat 1 1).map (fun d => (d.typ, d.role, d.descr, d.ops 0, d.ops 3)) = some (0, 1, 2, some (true, true, true), none) ∧
+    ((specOf {} exOps).feat 1 2).map (fun d => (d.typ, d.role, d.ops 3)) = some (0, 0, none) ∧
+    ((specOf {} exOps).feat 2 1).map (·.descr) = some 1001 ∧ ((specOf {} exOps).feat 2 2).isNone = true ∧
+    ((specOf {} exOps).feat 0 0).map (fun d => (d.typ, d.ops 100, d.ops 103)) = some (nmType, some (true, false, false), some (false, false, false)) := by
   refine ⟨?_, by decide, by decide, by rfl, by rfl, by rfl, by rfl, by rfl⟩
   simp only [exOps, validFrom, Op.ok, and_true, true_and]
   decide
@@ -147,18 +151,18 @@ theorem c07_feature_announced (s : St) (k typ role : Nat) (hk : k ∈ s.attached
     · subst hkk; simp only [upd_same]; exact List.mem_append_left _ h.2
     · simp only [upd_other _ _ _ _ hkk]; exact h.2
 
-example : findTR ((run exOps).pool 1) 3 1 = none ∧ 1 ∈ (run exOps).attached := by decide
+example : findTR ((run {} exOps).pool 1) 3 1 = none ∧ 1 ∈ (run {} exOps).attached := by decide
 
 /-- AddFunctionType of a new function on a server or special feature: afterwards the reply lists that feature with
     the function and exactly the read/write flags given; all other features are listed unchanged. -/
-theorem c07_function_announced (s : St) (h : Inv s) (k : Nat) (f : Feat) (fn : Nat) (r w : Bool)
+theorem c07_function_announced (s : St) (h : Inv s) (k : Nat) (f : Feat) (fn : Nat) (r w cap : Bool)
     (hm : (k, f) ∈ replyFeats s) (hr : f.role ≠ 0) (hnew : fn ∉ f.fns.map (·.fn)) :
-    let s' := (step s (.addFn k f.id fn r w)).1
-    (k, { f with fns := f.fns ++ [⟨fn, r, w⟩] }) ∈ replyFeats s' ∧
+    let s' := (step s (.addFn k f.id fn r w cap)).1
+    (k, { f with fns := f.fns ++ [⟨fn, r, w, w && cap⟩] }) ∈ replyFeats s' ∧
     ∀ k' f', (k', f') ∈ replyFeats s → (k', f'.id) ≠ (k, f.id) → (k', f') ∈ replyFeats s' := by
   obtain ⟨hk, hf⟩ := (mem_replyFeats s k f).mp hm
-  obtain ⟨u1, u2⟩ := updFeat_of_nodup (s.pool k).feats (h.1 k).1.1 f hf (fun x => featAddFn x fn r w)
-  rw [featAddFn_new f fn r w hr hnew] at u1
+  obtain ⟨u1, u2⟩ := updFeat_of_nodup (s.pool k).feats (h.1 k).1.1 f hf (fun x => featAddFn x fn r w cap)
+  rw [featAddFn_new f fn r w cap hr hnew] at u1
   simp only [step]
   refine ⟨?_, ?_⟩
   · rw [mem_replyFeats]; exact ⟨hk, by simp only [upd_same]; exact u1⟩
@@ -172,40 +176,110 @@ theorem c07_function_announced (s : St) (h : Inv s) (k : Nat) (f : Feat) (fn : N
       exact u2 f' hf' (fun hid => hne (by rw [hid]))
     · simp only [upd_other _ _ _ _ hkk]; exact hf'
 
-example : Inv (run exOps) ∧ (1, ⟨1, 0, 1, 2, [⟨0, true, true⟩]⟩) ∈ replyFeats (run exOps) :=
-  ⟨inv_run exOps, by decide⟩
+example : Inv (run {} exOps) ∧ (1, ⟨1, 0, 1, 2, [⟨0, true, true, true⟩]⟩) ∈ replyFeats (run {} exOps) :=
+  ⟨inv_run {} exOps, by decide⟩
 
 /-- … a function that is already registered keeps the operations it was added with (first add wins) … -/
-theorem c07_function_first_wins (f : Feat) (fn : Nat) (r w : Bool) (h : fn ∈ f.fns.map (·.fn)) :
-    featAddFn f fn r w = f := featAddFn_again f fn r w h
+theorem c07_function_first_wins (f : Feat) (fn : Nat) (r w cap : Bool) (h : fn ∈ f.fns.map (·.fn)) :
+    featAddFn f fn r w cap = f := featAddFn_again f fn r w cap h
 
 /-- … and client features take no functions (documented behaviour of AddFunctionType). -/
-theorem c07_function_client_ignored (f : Feat) (fn : Nat) (r w : Bool) (h : f.role = 0) :
-    featAddFn f fn r w = f := featAddFn_client f fn r w h
+theorem c07_function_client_ignored (f : Feat) (fn : Nat) (r w cap : Bool) (h : f.role = 0) :
+    featAddFn f fn r w cap = f := featAddFn_client f fn r w cap h
 
-example : featAddFn ⟨1, 0, 1, 2, [⟨0, true, true⟩]⟩ 0 false false = ⟨1, 0, 1, 2, [⟨0, true, true⟩]⟩ ∧
-    featAddFn ⟨2, 0, 0, 1, []⟩ 3 true false = ⟨2, 0, 0, 1, []⟩ := by decide
+example : featAddFn ⟨1, 0, 1, 2, [⟨0, true, true, true⟩]⟩ 0 false false true = ⟨1, 0, 1, 2, [⟨0, true, true, true⟩]⟩ ∧
+    featAddFn ⟨2, 0, 0, 1, []⟩ 3 true false true = ⟨2, 0, 0, 1, []⟩ := by decide
+
+/-! ## Clause 1, the announced CONTENTS: device description, destination list, supported functions and operations -/
+
+/-- Device description and destination list. For every device configuration (the constructor arguments address,
+    device type, feature set), every history and every peer: the device description a discovery reply carries is the
+    configuration; a destination-list read from a feature the peer announced — with or without filter, the filter is
+    ignored — is answered with exactly ONE entry, the configuration (device address, device type, feature set as given
+    to the constructor), independent of entities, features, subscriptions and peers; a read whose source is not an
+    announced feature of the peer is not answered; reading changes nothing. -/
+theorem c07_destination_list (cfg : DevCfg) (ops : List Op) (p : Nat) :
+    step (run cfg ops) (.destRead p true) = (run cfg ops, [.destList p [cfg]]) ∧
+    step (run cfg ops) (.destRead p false) = (run cfg ops, []) ∧
+    step (run cfg ops) (.read p) = (run cfg ops, [.reply p cfg (replyEnts (run cfg ops)) (replyFeats (run cfg ops))]) := by
+  simp [step, destEntries, dev_run]
+
+/-- … and node management announces the destination-list function (readable) exactly if a feature set is given and
+    it is not `simple` -/
+theorem c07_destination_list_function_announced (cfg : DevCfg) :
+    (⟨108, true, false, false⟩ ∈ nmFns cfg.fset ↔ cfg.fset ≠ 0 ∧ cfg.fset ≠ 4) ∧
+    (0, ⟨0, nmType, 2, 0, nmFns cfg.fset⟩) ∈ replyFeats (init cfg) := by
+  refine ⟨?_, by simp [replyFeats, init, devInfo]⟩
+  unfold nmFns
+  by_cases h : cfg.fset = 0 ∨ cfg.fset = 4
+  · simp only [h, if_true, List.append_nil]
+    constructor
+    · intro hm; exact absurd hm (by decide)
+    · intro hn; rcases h with h | h
+      · exact absurd h hn.1
+      · exact absurd h hn.2
+  · simp only [h, if_false]
+    constructor
+    · intro _; exact ⟨fun e => h (Or.inl e), fun e => h (Or.inr e)⟩
+    · intro _; simp
+
+example : (step (run ⟨7, 2, 4⟩ exOps) (.destRead 1 true)).2 = [.destList 1 [⟨7, 2, 4⟩]] ∧
+    (nmFns 4).length = 8 ∧ (nmFns 3).length = 9 := by decide
+
+/-- Supported functions and operations. For every history and every feature the reply announces: its
+    supportedFunction list names each function once; the functions named are exactly those the SPEC declares for that
+    (entity, feature number) — the functions added to it while it was a server or special feature — each with the
+    read / write / partial-write flags of its FIRST addition (`specOf`, `declFn`: partial write = write ∧ the function's
+    data type supports partial updates on this feature); and what `Operations.Information` renders for a function
+    (`Fn.info`) never carries a partial read, and a partial write only together with write. -/
+theorem c07_supported_functions (cfg : DevCfg) (ops : List Op) (k : Nat) (f : Feat)
+    (h : (k, f) ∈ replyFeats (run cfg ops)) :
+    (f.fns.map (·.fn)).Nodup ∧
+    (specOf cfg ops).feat k f.id = some (toDecl f) ∧
+    (∀ fn, fnOps f.fns fn = ((specOf cfg ops).feat k f.id).bind (·.ops fn)) ∧
+    ∀ x ∈ f.fns, x.info.2.1 = false ∧ (x.info.2.2.2 = true → x.info.2.2.1 = true) ∧
+      (x.info.1, x.info.2.2.1) = (x.read, x.write) := by
+  obtain ⟨_, hf⟩ := (mem_replyFeats _ k f).mp h
+  have hs : (specOf cfg ops).feat k f.id = some (toDecl f) := by
+    rw [← abs_run cfg ops]
+    simp only [LTree.abs, featAt, find_of_nodup _ ((inv_run cfg ops).1 k).1.1 f hf, Option.map_some]
+  refine ⟨((inv_run cfg ops).1 k).2.2 f hf, hs, ?_, ?_⟩
+  · intro fn; rw [hs]; rfl
+  · intro x hx
+    refine ⟨rfl, ?_, rfl⟩
+    intro hp
+    simp only [Fn.info, Bool.and_eq_true] at hp
+    exact hp.1
+
+/-- non-vacuity: LoadControlLimitListData-like function 0 added read/write on a feature whose data supports partial
+    updates is announced (read, -, write, partial write); re-added read-only it stays; a function whose data does not
+    support partial updates (cap = false) is announced without partial write -/
+example : (replyFeats (run {} [.renew 1 1, .feat 1 0 1, .addFn 1 1 0 true true true, .addFn 1 1 0 true false true,
+      .addFn 1 1 3 false true false, .attach 1])).drop 2 =
+    [(1, ⟨1, 0, 1, 2, [⟨0, true, true, true⟩, ⟨3, false, true, false⟩]⟩)] ∧
+    (⟨0, true, true, true⟩ : Fn).info = (true, false, true, true) ∧
+    (⟨3, false, true, false⟩ : Fn).info = (false, false, true, false) := by decide
 
 /-! ## Clause 1, second half: every announced feature address resolves back to that feature -/
 
 /-- For every history (no domain assumption needed): each (entity, feature number) the reply announces resolves —
     `DeviceLocal.FeatureByAddress` — to exactly the announced feature. -/
-theorem c07_resolves (ops : List Op) (k : Nat) (f : Feat) (h : (k, f) ∈ replyFeats (run ops)) :
-    resolve (run ops) k f.id = some f :=
-  resolves (run ops) (inv_run ops) k f h
+theorem c07_resolves (cfg : DevCfg) (ops : List Op) (k : Nat) (f : Feat) (h : (k, f) ∈ replyFeats (run cfg ops)) :
+    resolve (run cfg ops) k f.id = some f :=
+  resolves (run cfg ops) (inv_run cfg ops) k f h
 
-example : (2, ⟨3, 1, 1, 5, []⟩) ∈ replyFeats (run exOps) ∧ resolve (run exOps) 2 3 = some ⟨3, 1, 1, 5, []⟩ := by decide
+example : (2, ⟨3, 1, 1, 5, []⟩) ∈ replyFeats (run {} exOps) ∧ resolve (run {} exOps) 2 3 = some ⟨3, 1, 1, 5, []⟩ := by decide
 
 /-- "addressed uniquely": for every history inside the domain (an entity is added only while it is not part of the
     device) the announced feature addresses are pairwise distinct. -/
-theorem c07_addresses_unique (ops : List Op) (hv : validFrom init ops) :
-    ((replyFeats (run ops)).map fun p => (p.1, p.2.id)).Nodup := by
+theorem c07_addresses_unique (cfg : DevCfg) (ops : List Op) (hv : validFrom (init cfg) ops) :
+    ((replyFeats (run cfg ops)).map fun p => (p.1, p.2.id)).Nodup := by
   rw [replyFeats_addrs]
-  exact addrs_nodup _ (fun k => ((inv_run ops).1 k).1.1) _ (attached_run ops hv)
+  exact addrs_nodup _ (fun k => ((inv_run cfg ops).1 k).1.1) _ (attached_run cfg ops hv)
 
 /-- outside the domain the clause fails (the API does not reject adding an entity twice): recorded, not a finding -/
 theorem c07_addresses_unique_needs_domain :
-    ¬ ((replyFeats (run [.renew 1 1, .feat 1 0 1, .attach 1, .attach 1])).map fun p => (p.1, p.2.id)).Nodup := by decide
+    ¬ ((replyFeats (run {} [.renew 1 1, .feat 1 0 1, .attach 1, .attach 1])).map fun p => (p.1, p.2.id)).Nodup := by decide
 
 /-! ## Clause 2: entity addition and removal notify each node-management subscriber exactly once -/
 
@@ -247,14 +321,14 @@ theorem c07_notifications_only_to_subscribers (s : St) (k : Nat) (o : Obs) (q : 
     · simp only [peerOf, Option.some.injEq] at hq; exact hq ▸ hp
 
 /-- non-vacuity: two subscribers and a bystander; entity 1 with two features -/
-def exSt : St := run [.sub 0, .sub 2, .renew 1 1, .feat 1 0 1, .addFn 1 1 0 true true, .feat 1 0 0, .addUc 1]
+def exSt : St := run {} [.sub 0, .sub 2, .renew 1 1, .feat 1 0 1, .addFn 1 1 0 true true false, .feat 1 0 0, .addUc 1]
 example : Inv exSt ∧ exSt.subs = [0, 2] ∧
     (step exSt (.attach 1)).2 =
-      [.notify 0 true 1 1 [⟨1, 0, 1, 2, [⟨0, true, true⟩]⟩, ⟨2, 0, 0, 1, []⟩],
-       .notify 2 true 1 1 [⟨1, 0, 1, 2, [⟨0, true, true⟩]⟩, ⟨2, 0, 0, 1, []⟩]] ∧
+      [.notify 0 true 1 1 [⟨1, 0, 1, 2, [⟨0, true, true, false⟩]⟩, ⟨2, 0, 0, 1, []⟩],
+       .notify 2 true 1 1 [⟨1, 0, 1, 2, [⟨0, true, true, false⟩]⟩, ⟨2, 0, 0, 1, []⟩]] ∧
     (step (step exSt (.attach 1)).1 (.detach 1)).2 =
       [.ucNotify 0, .ucNotify 2, .notify 0 false 1 1 [], .notify 2 false 1 1 []] :=
-  ⟨inv_run _, by decide, by decide, by decide⟩
+  ⟨inv_run {} _, by decide, by decide, by decide⟩
 
 /-- Clause 2 as one statement over histories: over ANY history, the partial detailed-discovery notifications peer p
     received (`recvNotes`, in order) are exactly those of the SPEC (`expNotes`): one for every AddEntity and every
@@ -263,11 +337,11 @@ example : Inv exSt ∧ exSt.subs = [0, 2] ∧
     added with its type and the features it had at that moment (which `c07_refines` identifies with the declared
     ones), or as removed without features; none for operations performed while p was not subscribed; and their number
     is the number of such operations. -/
-theorem c07_notifications_history (ops : List Op) (p : Nat) :
-    recvNotes p init ops = expNotes p init false ops ∧
-    (recvNotes p init ops).length = expCount p false ops := by
-  have h := recv_eq_exp p ops init inv_init
-  have h0 : decide (p ∈ init.subs) = false := by simp [init]
+theorem c07_notifications_history (cfg : DevCfg) (ops : List Op) (p : Nat) :
+    recvNotes p (init cfg) ops = expNotes p (init cfg) false ops ∧
+    (recvNotes p (init cfg) ops).length = expCount p false ops := by
+  have h := recv_eq_exp p ops (init cfg) (inv_init cfg)
+  have h0 : decide (p ∈ (init cfg).subs) = false := by simp [init]
   rw [h0] at h
   exact ⟨h, by rw [h, expNotes_length]⟩
 
@@ -275,9 +349,9 @@ theorem c07_notifications_history (ops : List Op) (p : Nat) :
     and sees entity 2 removed; peer 1 never subscribes -/
 def exNotif : List Op :=
   [.renew 1 1, .feat 1 0 1, .renew 2 2, .sub 0, .attach 1, .addUc 1, .detach 1, .unsub 0, .attach 2, .sub 0, .detach 2]
-example : recvNotes 0 init exNotif =
+example : recvNotes 0 (init {}) exNotif =
       [.notify 0 true 1 1 [⟨1, 0, 1, 2, []⟩], .notify 0 false 1 1 [], .notify 0 false 2 2 []] ∧
-    expCount 0 false exNotif = 3 ∧ recvNotes 1 init exNotif = [] := by decide
+    expCount 0 false exNotif = 3 ∧ recvNotes 1 (init {}) exNotif = [] := by decide
 
 /-- Clause 2 under FAILING peers (`notify_independent_of_other_failures`): when the connections of some peers cannot
     be written to (their sends return an error), what every healthy peer receives from any step — partial
@@ -304,15 +378,15 @@ theorem c07_notify_independent_of_other_failures (failing : List Nat) (s : St) (
   rw [e (delivered failing (step s o).2), e (step s o).2, h]
 
 /-- non-vacuity: subscribers 1 (failing), 0 and 2 in that order; entity 1 is added — 0 and 2 are notified -/
-example : (delivered [1] (step (run [.sub 1, .sub 0, .sub 2, .renew 1 1]) (.attach 1)).2) =
+example : (delivered [1] (step (run {} [.sub 1, .sub 0, .sub 2, .renew 1 1]) (.attach 1)).2) =
     [.notify 0 true 1 1 [], .notify 2 true 1 1 []] := by decide
 
 /-! ## Clause 3: feature numbers are never reused or duplicated; one feature per type and role -/
 
 /-- Tree model, every history, every entity object: the feature numbers are pairwise distinct and all below the
     generator (so a number handed out later is larger than every number in use). -/
-theorem c07_ids_fresh_tree (ops : List Op) (k : Nat) : EntFresh ((run ops).pool k) :=
-  ((inv_run ops).1 k).1
+theorem c07_ids_fresh_tree (cfg : DevCfg) (ops : List Op) (k : Nat) : EntFresh ((run cfg ops).pool k) :=
+  ((inv_run cfg ops).1 k).1
 
 /-- A number handed out — by NextFeatureId or to a newly created feature — is at least the generator's value, hence
     larger than every number handed out before on this entity object, and the generator moves past it. -/
@@ -337,15 +411,15 @@ example : (Feat.run false [.lookup 1 7 0, .nextId, .lookup 2 7 0, .create 2, .cr
 
 /-- Sequential use (tree model, every history): at most one feature per type and role on every entity object —
     asking repeatedly yields the same feature. -/
-theorem c07_one_feature_per_type_role_sequential (ops : List Op) (k : Nat) : OnePer ((run ops).pool k) :=
-  ((inv_run ops).1 k).2.1
+theorem c07_one_feature_per_type_role_sequential (cfg : DevCfg) (ops : List Op) (k : Nat) : OnePer ((run cfg ops).pool k) :=
+  ((inv_run cfg ops).1 k).2.1
 
 /-- … and a repeated GetOrAddFeature returns the existing feature's number and changes nothing -/
 theorem c07_get_or_add_idempotent (s : St) (k typ role : Nat) (f : Feat) (hf : findTR (s.pool k) typ role = some f) :
     (step s (.feat k typ role)).2 = [.ret f.id] ∧ (step s (.feat k typ role)).1.pool k = s.pool k := by
   simp [step, entGetOrAdd, hf, upd_same]
 
-example : findTR ((run exOps).pool 1) 0 1 = some ⟨1, 0, 1, 2, [⟨0, true, true⟩]⟩ := by decide
+example : findTR ((run {} exOps).pool 1) 0 1 = some ⟨1, 0, 1, 2, [⟨0, true, true, true⟩]⟩ := by decide
 
 /-- CURRENT TREE's member (`recheck = true`: creation looks up again under the lock, 694fa73), every interleaving of the lookups and creations of any
     number of concurrent calls: at most one feature per type and role. -/
